@@ -386,6 +386,52 @@ def run(chk):
                          f"{kind}: the user callable '{where or 'hamiltonian'}' raises at its evaluation {j} ({species} species); the repeated compute() "
                          "silently returns different dynamics", info)
 
+    # ---- the same clause for the methods with a fixed end: the bath's spectral density raises (once) while PtTempo.compute /
+    # GibbsTempo.compute run; the repeated call gives the failure-free process tensor / state or fails again --------------------
+    def fixed_end(kind, counter):
+        def j(w):
+            counter.tick()
+            return 0.1 * w
+        if kind == "pttempo":
+            corr = oqupy.CustomSD(j, cutoff=3.0, cutoff_type="exponential", temperature=0.1)
+            ob = oqupy.PtTempo(oqupy.Bath(0.5 * oqupy.operators.sigma("z"), corr), 0.0, 4 * DT, oqupy.TempoParameters(dt=DT, epsrel=1e-6, dkmax=None))
+            res = lambda: np.array(quiet(oqupy.compute_dynamics, oqupy.System(0.4 * oqupy.operators.sigma("x")), initial_state=_rho,
+                                         process_tensor=ob.get_process_tensor(progress_type="silent"), progress_type="silent").states)
+        else:
+            corr = oqupy.CustomSD(j, cutoff=3.0, cutoff_type="exponential", temperature=0.7)
+            ob = oqupy.GibbsTempo(oqupy.System(0.4 * oqupy.operators.sigma("x") + 0.2 * oqupy.operators.sigma("z")), oqupy.Bath(np.diag([1.0, -0.5]), corr),
+                                  oqupy.GibbsParameters(n_steps=6, epsrel=1e-9))
+            res = lambda: np.array(ob.get_state())
+        return ob, res
+    for kind in ("pttempo", "gibbs"):
+        probe = Counter()
+        ob, res = fixed_end(kind, probe)
+        probe.armed = True
+        quiet(ob.compute, progress_type="silent")
+        n_eval, want = probe.n, res()
+        for j_ in sorted(set([1, n_eval // 2, n_eval] + rng.sample(range(1, n_eval + 1), 4 if thorough else 1))):
+            c = Counter(fail_at=j_)
+            ob, res = fixed_end(kind, c)
+            c.armed = True
+            chk.search_cases += 1
+            info = {"driver": kind, "failing_callable": "spectral density", "fail_at_evaluation": j_, "of": n_eval}
+            try:
+                quiet(ob.compute, progress_type="silent")
+                chk.disagree("failure injection", f"{kind}: no exception at evaluation {j_}")
+                continue
+            except Boom:
+                pass
+            try:
+                quiet(ob.compute, progress_type="silent")
+                got = res()
+                outcome = "same" if got.shape == want.shape and np.abs(got - want).max() < 1e-7 else "different"
+            except Exception as ex:
+                outcome = "fails again: " + repr(ex)[:80]
+            chk.count(f"{kind}_sd_retry_{outcome.split(':')[0]}")
+            chk.case(dict(info, outcome=outcome), (kind, "sd", "fail", j_))
+            if outcome == "different":
+                chk.fail("retry-differs", f"{kind}: the bath's spectral density raises at its evaluation {j_}; the repeated compute() silently gives a different result", info)
+
     vals, errs = run_cases("C14", HEADER, exprs)
     for e in errs:
         chk.disagree("coq evaluation", e)
